@@ -3102,7 +3102,7 @@ class Ac_Implied_Do(Base):
         :rtype: Optional[Tuple[Ac_Value_List, Ac_Implied_Do_Control]]
 
         """
-        if string[0] + string[-1] != "()":
+        if not string or string[0] + string[-1] != "()":
             return None
         line, repmap = string_replace_map(string[1:-1].strip())
         i = line.rfind("=")
